@@ -171,7 +171,7 @@ static DIR_COUNTER: std::sync::atomic::AtomicU64 = std::sync::atomic::AtomicU64:
 
 pub fn scratch_root() -> PathBuf {
     let base = std::env::var("BRUSHSIM_SCRATCH").unwrap_or_else(|_| "/tmp/brushsim".into());
-    PathBuf::from(base).join(format!("w{}", std::process::id()))
+    PathBuf::from(base).join(format!("w{:010}", std::process::id()))
 }
 
 fn fresh_dir() -> PathBuf {
@@ -276,6 +276,10 @@ pub fn run_with(spec: &RunSpec, inspect: Option<Inspect>) -> RunResult {
     // process-wide state that workloads may touch
     let saved_umask = unsafe { libc::umask(0o022) };
     unsafe { libc::umask(saved_umask) };
+    let mut saved_core = libc::rlimit { rlim_cur: 0, rlim_max: 0 };
+    unsafe { libc::getrlimit(libc::RLIMIT_CORE, &mut saved_core) };
+    let mut saved_nofile = libc::rlimit { rlim_cur: 0, rlim_max: 0 };
+    unsafe { libc::getrlimit(libc::RLIMIT_NOFILE, &mut saved_nofile) };
 
     world::begin_run(spec.cfg.clone(), stdin_bytes);
 
@@ -392,6 +396,8 @@ pub fn run_with(spec: &RunSpec, inspect: Option<Inspect>) -> RunResult {
     let w = world::end_run();
 
     unsafe { libc::umask(saved_umask) };
+    unsafe { libc::setrlimit(libc::RLIMIT_CORE, &saved_core) };
+    unsafe { libc::setrlimit(libc::RLIMIT_NOFILE, &saved_nofile) };
 
     let mut abort = w.abort.clone();
     if let Some(d) = panic_detail {
@@ -443,4 +449,109 @@ fn harness_fail(msg: String) -> RunResult {
         snapshot: None,
         harness_error: Some(msg),
     }
+}
+
+// ---------------------------------------------------------------------------------------
+// Full state snapshot of a shell (C12): serde dump of the Shell plus what serde leaves out.
+
+fn rlimit_soft(res: libc::__rlimit_resource_t) -> i64 {
+    let mut r = libc::rlimit { rlim_cur: 0, rlim_max: 0 };
+    let rc = unsafe { libc::getrlimit(res, &mut r) };
+    if rc == 0 { r.rlim_cur as i64 } else { -1 }
+}
+
+pub fn process_umask() -> u32 {
+    let m = unsafe { libc::umask(0o022) };
+    unsafe { libc::umask(m) };
+    m as u32
+}
+
+pub fn snapshot<SE: ShellExtensions>(shell: &Shell<SE>) -> serde_json::Value {
+    use std::os::fd::AsRawFd;
+    let mut v = serde_json::to_value(shell).unwrap_or(serde_json::Value::Null);
+    if let Some(o) = v.as_object_mut() {
+        for k in ["last_exit_status", "last_exit_status_change_count", "last_pipeline_statuses", "last_stopwatch_time", "last_stopwatch_offset"] {
+            o.remove(k);
+        }
+        // persistent descriptor table with identities
+        let mut fds = std::collections::BTreeMap::new();
+        for (fd, f) in shell.open_files().iter_fds() {
+            let desc = match f.try_borrow_as_fd() {
+                Ok(b) => {
+                    let fl = unsafe { libc::fcntl(b.as_raw_fd(), libc::F_GETFL) };
+                    let target = std::fs::read_link(format!("/proc/self/fd/{}", b.as_raw_fd())).map(|p| p.to_string_lossy().to_string()).unwrap_or_default();
+                    format!("{f} -> {target} flags={:o}", fl & (libc::O_APPEND | libc::O_ACCMODE))
+                }
+                Err(_) => format!("{f}"),
+            };
+            fds.insert(fd.to_string(), desc);
+        }
+        o.insert("x_fds".into(), serde_json::json!(fds));
+        let mut disabled: Vec<String> = shell.builtins().iter().filter(|(_, r)| r.disabled).map(|(n, _)| n.clone()).collect();
+        disabled.sort();
+        o.insert("x_disabled_builtins".into(), serde_json::json!(disabled));
+        o.insert("x_builtin_count".into(), serde_json::json!(shell.builtins().len()));
+        o.insert("x_jobs".into(), serde_json::json!(shell.jobs().jobs.iter().map(|j| j.id).collect::<Vec<_>>()));
+        o.insert(
+            "x_proc".into(),
+            serde_json::json!({
+                "umask": format!("{:04o}", process_umask()),
+                "rlimit_core": rlimit_soft(libc::RLIMIT_CORE),
+                "rlimit_nofile": rlimit_soft(libc::RLIMIT_NOFILE),
+                "rlimit_fsize": rlimit_soft(libc::RLIMIT_FSIZE),
+                "rlimit_stack": rlimit_soft(libc::RLIMIT_STACK),
+                "cwd": std::env::current_dir().map(|p| p.to_string_lossy().to_string()).unwrap_or_default(),
+                "env_count": std::env::vars_os().count(),
+            }),
+        );
+    }
+    // the private run directory's name never enters a comparison
+    let mut text = v.to_string();
+    let root = scratch_root().to_string_lossy().to_string();
+    for i in 0..4 {
+        text = text.replace(&format!("{root}/r{i}"), "<RUN>");
+    }
+    serde_json::from_str(&text).unwrap_or(v)
+}
+
+/// Paths (dotted) at which two JSON values differ.
+pub fn json_diff(a: &serde_json::Value, b: &serde_json::Value, path: &str, out: &mut Vec<String>) {
+    use serde_json::Value as V;
+    if out.len() > 40 {
+        return;
+    }
+    match (a, b) {
+        (V::Object(x), V::Object(y)) => {
+            let mut keys: Vec<&String> = x.keys().chain(y.keys()).collect();
+            keys.sort();
+            keys.dedup();
+            for k in keys {
+                let p = if path.is_empty() { k.clone() } else { format!("{path}.{k}") };
+                match (x.get(k), y.get(k)) {
+                    (Some(u), Some(w)) => json_diff(u, w, &p, out),
+                    (Some(u), None) => out.push(format!("{p}: {} vs <absent>", short(u))),
+                    (None, Some(w)) => out.push(format!("{p}: <absent> vs {}", short(w))),
+                    (None, None) => {}
+                }
+            }
+        }
+        (V::Array(x), V::Array(y)) => {
+            if x.len() != y.len() {
+                out.push(format!("{path}: array length {} vs {}", x.len(), y.len()));
+            }
+            for (i, (u, w)) in x.iter().zip(y.iter()).enumerate() {
+                json_diff(u, w, &format!("{path}[{i}]"), out);
+            }
+        }
+        _ => {
+            if a != b {
+                out.push(format!("{path}: {} vs {}", short(a), short(b)));
+            }
+        }
+    }
+}
+
+fn short(v: &serde_json::Value) -> String {
+    let s = v.to_string();
+    if s.len() > 80 { format!("{}…", s.chars().take(80).collect::<String>()) } else { s }
 }
